@@ -731,6 +731,12 @@ fn reloader_history(rep: &mut Report, rng: &mut Rng, idx: u64) {
 /// waits (bounded) for the reloader thread to pick the changes up.
 pub fn child_e2e(args: &[String]) -> i32 {
     let dir = std::path::PathBuf::from(&args[0]);
+    // variant 1: the configured path is a symbolic link that is re-pointed to publish a new version, and the
+    // refresh rate goes from slow to fast; variant 2: as variant 0 with a dead stderr (parent's business)
+    let variant: u32 = args.get(1).and_then(|s| s.parse().ok()).unwrap_or(0);
+    if variant == 1 {
+        return child_e2e_links(&dir);
+    }
     let cfg = dir.join("log4rs.yaml");
     let doc = |file: &str, rate: &str| {
         format!("refresh_rate: {}\nappenders:\n  out:\n    kind: file\n    path: {}/{}\n    encoder: {{pattern: '{{m}}{{n}}'}}\nroot:\n  level: info\n  appenders: [out]\n",
@@ -775,6 +781,21 @@ pub fn child_e2e(args: &[String]) -> i32 {
                 break 'run;
             }
         }
+        if variant == 2 {
+            // a document whose appender cannot be built (reported, dropped) before the one that does not parse at all
+            std::fs::write(&cfg, doc("b.log", "50 ms").replace("kind: file", "kind: file\n    bogus_key: 1")).unwrap();
+            bump(15);
+            std::thread::sleep(Duration::from_millis(300));
+            std::fs::write(&cfg, doc("b.log", "50 ms")).unwrap();
+            bump(17);
+            match wait_for("b.log", "m2b") {
+                Some(p) => steps.push(json!({"after a document with a broken appender, the repaired one applied after polls": p})),
+                None => {
+                    verdict = "TIMEOUT repaired file not applied within 1500 polls after a document with a broken appender (reloader stopped polling?)".into();
+                    break 'run;
+                }
+            }
+        }
         // broken file: the last good configuration stays active
         std::fs::write(&cfg, "appenders: [[[ not yaml").unwrap();
         bump(20);
@@ -801,10 +822,135 @@ pub fn child_e2e(args: &[String]) -> i32 {
     0
 }
 
+/// Variant 1 of the end-to-end child.
+fn child_e2e_links(dir: &std::path::Path) -> i32 {
+    let link = dir.join("current.yaml");
+    let doc = |file: &str, rate: &str| {
+        format!("refresh_rate: {}\nappenders:\n  out:\n    kind: file\n    path: {}/{}\n    encoder: {{pattern: '{{m}}{{n}}'}}\nroot:\n  level: info\n  appenders: [out]\n",
+            rate, dir.to_str().unwrap(), file)
+    };
+    let mut version = 0u32;
+    // publishes a document as a new file and re-points the link to it atomically (ln -sfn), then removes the old file
+    let mut publish = |text: &str| {
+        version += 1;
+        let new = dir.join(format!("v{}.yaml", version));
+        std::fs::write(&new, text).unwrap();
+        let f = std::fs::OpenOptions::new().write(true).open(&new).unwrap();
+        let _ = f.set_modified(SystemTime::now() + Duration::from_secs(10 * version as u64));
+        let old = std::fs::read_link(&link).ok();
+        let tmp = dir.join("current.yaml.tmp");
+        let _ = std::fs::remove_file(&tmp);
+        std::os::unix::fs::symlink(&new, &tmp).unwrap();
+        std::fs::rename(&tmp, &link).unwrap();
+        if let Some(o) = old {
+            let _ = std::fs::remove_file(o);
+        }
+    };
+    publish(&doc("a.log", "3 seconds"));
+    if let Err(e) = log4rs::init_file(&link, Default::default()) {
+        println!("RESULT {}", json!({"error": format!("init_file: {:#}", e)}));
+        return 0;
+    }
+    let read = |f: &str| std::fs::read_to_string(dir.join(f)).unwrap_or_default();
+    // polls (every 10 ms) until a record logged now arrives in `file`; elapsed milliseconds
+    let wait_for = |file: &str, marker: &str| -> Option<u128> {
+        let t0 = std::time::Instant::now();
+        for _ in 0..3000 {
+            log::info!("{}", marker);
+            if read(file).contains(marker) {
+                return Some(t0.elapsed().as_millis());
+            }
+            std::thread::sleep(Duration::from_millis(10));
+        }
+        None
+    };
+    let mut steps = vec![];
+    let mut verdict = "ok".to_owned();
+    'run: {
+        if wait_for("a.log", "m1").is_none() {
+            verdict = "initial configuration never became active".into();
+            break 'run;
+        }
+        // new version behind the re-pointed link, with a fast refresh rate
+        publish(&doc("b.log", "40 ms"));
+        match wait_for("b.log", "m2") {
+            Some(ms) => steps.push(json!({"link re-pointed (rate 3 s -> 40 ms): applied after ms": ms})),
+            None => {
+                verdict = "TIMEOUT configuration behind the re-pointed link not applied within 30 s".into();
+                break 'run;
+            }
+        }
+        // the new rate stays in force: two more versions, each published after a few idle polls
+        let mut slow = vec![];
+        for (k, file) in ["c.log", "d.log"].iter().enumerate() {
+            std::thread::sleep(Duration::from_millis(200));
+            publish(&doc(file, "40 ms"));
+            match wait_for(file, &format!("m{}", 3 + k)) {
+                Some(ms) => {
+                    steps.push(json!({"next version under the 40 ms rate: applied after ms": ms}));
+                    if ms > 1200 {
+                        slow.push(ms);
+                    }
+                }
+                None => {
+                    verdict = "TIMEOUT a later version was not applied within 30 s".into();
+                    break 'run;
+                }
+            }
+        }
+        if slow.len() == 2 {
+            verdict = format!("VIOLATION the refresh rate of 40 ms is not in force: two consecutive versions took {:?} ms to be applied (the initial rate was 3 s)", slow);
+        }
+    }
+    println!("RESULT {}", json!({"verdict": verdict, "steps": steps}));
+    0
+}
+
+/// Runs the end-to-end child with its stderr connected to a pipe nobody reads from (writes fail with EPIPE).
+fn run_child_with_dead_stderr(args: &[String]) -> std::io::Result<crate::childproc::ChildOut> {
+    use std::os::fd::FromRawFd;
+    let mut fds = [0 as libc::c_int; 2];
+    if unsafe { libc::pipe(fds.as_mut_ptr()) } != 0 {
+        return Err(std::io::Error::last_os_error());
+    }
+    let write_end = unsafe { std::os::fd::OwnedFd::from_raw_fd(fds[1]) };
+    unsafe { libc::close(fds[0]) };
+    let mut cmd = std::process::Command::new(crate::childproc::self_exe());
+    cmd.arg("child").args(args).stdin(std::process::Stdio::null()).stdout(std::process::Stdio::piped()).stderr(std::process::Stdio::from(write_end));
+    let mut child = cmd.spawn()?;
+    drop(cmd);
+    let mut so = child.stdout.take().unwrap();
+    let t = std::thread::spawn(move || {
+        let mut v = vec![];
+        let _ = std::io::Read::read_to_end(&mut so, &mut v);
+        v
+    });
+    let start = std::time::Instant::now();
+    let mut timed_out = false;
+    let status = loop {
+        match child.try_wait()? {
+            Some(st) => break st.code(),
+            None => {
+                if start.elapsed() > Duration::from_secs(600) {
+                    let _ = child.kill();
+                    let _ = child.wait();
+                    timed_out = true;
+                    break None;
+                }
+                std::thread::sleep(Duration::from_millis(5));
+            }
+        }
+    };
+    Ok(crate::childproc::ChildOut { status, stdout: t.join().unwrap_or_default(), stderr: vec![], timed_out })
+}
+
 fn e2e(rep: &mut Report, _rng: &mut Rng, idx: u64) {
     let sc = Scratch::new("c15e");
-    let args = vec!["c15e2e".to_owned(), sc.path.to_str().unwrap().to_owned()];
-    match run_child(&args, &[], Duration::from_secs(600)) {
+    let variant = idx % 3;
+    rep.observe("end_to_end_variants", &variant.to_string());
+    let args = vec!["c15e2e".to_owned(), sc.path.to_str().unwrap().to_owned(), variant.to_string()];
+    let outcome = if variant == 2 { run_child_with_dead_stderr(&args) } else { run_child(&args, &[], Duration::from_secs(600)) };
+    match outcome {
         Err(e) => rep.inconclusive(&format!("cannot spawn e2e child: {}", e)),
         Ok(o) if o.timed_out => rep.inconclusive("end-to-end reloader child timed out"),
         Ok(o) => {
@@ -859,7 +1005,7 @@ pub fn run(rep: &mut Report) {
     run_cases(rep, "reentrant", 64, reentrant);
     run_cases(rep, "reloader", if thorough { 6000 } else { 1000 }, reloader_history);
     std::env::set_var("L4V_JOBS", "4");
-    run_cases(rep, "e2e", if thorough { 8 } else { 2 }, e2e);
+    run_cases(rep, "e2e", if thorough { 9 } else { 3 }, e2e);
     std::env::remove_var("L4V_JOBS");
     if rep.tier == "thorough" && std::env::var("L4V_NO_MIRI").is_err() {
         crate::miri::run_miri_seeds(rep, "C15", 32);
